@@ -36,7 +36,7 @@ CLAIMED = {
               "After every step every property read must equal a cache-free reference evaluation of current state, invalidated_by "
               "attributes whose dependency changed are back at their default, and after an unrelated or failed mutation every cache "
               "slot is the same object as before."),
-        note="Trusted: the reference evaluator / invalidation closure in specsim/props/c11.py. Overrides are only placed on properties without dependencies (what invalidation does to an override is not documented).",
+        note="Trusted: the reference evaluator / invalidation closure in specsim/props/c11.py. Any property may be overridden by assignment and the override / cache withdrawn by del; whether an override of an affected property survives is not part of the statement (the model follows the slot), what depends on it is judged.",
         technique="deterministic simulation: seeded dependency graphs x operation histories with injected faults, cache-free reference evaluation",
     ),    "C10": dict(
         level="exploration", design="DESIGN.md 3/C10",
@@ -45,8 +45,7 @@ CLAIMED = {
               "class, class and subclass) are reflexive, symmetric, transitive and equal the reference attribute-wise comparison "
               "(compare=False ignored, missing equals only missing, bound methods by function); every copy-on-write result is "
               "compared with its receiver (pairs differing in exactly the changed attributes, at every declaration position); "
-              "deepcopy(x) == x; re-construction from own attribute values is equal; repr never raises (missing values, direct and "
-              "list-wrapped self references) and lists exactly the repr-enabled attributes in declaration order. No fault or "
+              "deepcopy(x) == x; re-construction from own attribute values is equal; repr never raises (missing values, self references directly or through list / dict / KeyedList / KeyedSet) and lists exactly the repr-enabled attributes in declaration order. No fault or "
               "schedule bears on these relations; the simulator contributes the reachable-state pool."),
         note="Trusted: reference comparison and repr parser in specsim/props/c10.py. Copying / comparing cyclic structures is not claimed by the statement and not checked.",
         technique="deterministic simulation: seeded operation histories as state-pool generator, relational invariants vs reference comparison",
@@ -120,24 +119,26 @@ CLAIMED = {
     ),    "C14": dict(
         level="exploration", design="DESIGN.md 3/C14",
         text=("Seeded operation histories on a real KeyedSet against the reference model 'ordered mapping key -> most recently "
-              "added item', over 8 item universes (self-keyed str/int, tuples and unhashable lists with an explicit key function, "
-              "keyed spec items; untyped and KeyedSet[T, K]) x enforce_item_equivalence on/off: add / discard / remove / pop / "
+              "added item', over 14 item universes (self-keyed str/int, tuples, unhashable lists and tuples unhashable only by content "
+              "with an explicit key function, non-injective / repr / attribute-reading key functions, keyed spec items; untyped and "
+              "KeyedSet[T, K]) x enforce_item_equivalence on/off: add / discard / remove / pop / "
               "clear / membership / lookup with item-or-key arguments (existing item, existing key, equal copy, same key other "
               "payload, fresh, missing), |, &, -, ^, <=, <, >=, >, ==, !=, isdisjoint and |=, &=, -=, ^= against KeyedSet and "
               "built-in set operands, compared on keys; key-function fault injection at every invocation index."),
-        note=("Trusted: the reference mapping model in specsim/props/c14.py. Where the statement does not pin the semantics "
-              "(unequal items under a shared key against a built-in set operand, == with unequal payloads, collisions under "
-              "enforcement inside bulk operators) the check only requires coherence, never a particular result."),
+        note=("Trusted: the reference mapping model in specsim/props/c14.py. Built-in set operands are judged on keys like "
+              "KeyedSet operands (known findings C14-KF1 / C14-KF2 are the library's deviations there). Where the statement does "
+              "not pin the semantics (== with unequal payloads under a shared key, which item wins a collision under enforcement "
+              "inside bulk operators) the check only requires coherence, never a particular result."),
         technique="deterministic simulation: seeded operation histories vs executable reference model, key-function fault injection",
     ),    "C13": dict(
         level="exploration", design="DESIGN.md 3/C13",
-        text=("Seeded operation histories on a real KeyedList against a plain-list reference model plus the key function, over 7 "
+        text=("Seeded operation histories on a real KeyedList against a plain-list reference model plus the key function, over 10 "
               "item universes (self-keyed str/int, tuples with an explicit key function, keyed spec items; untyped and "
               "KeyedList[T, K]); all MutableSequence operations of the property text and the dict-like ones, indices over "
               "[-len-1, len+1], wrong item/key types, duplicate keys; where the universe has a key function every operation is "
               "re-executed with an injected exception at each key-function invocation. After every execution all public reads "
-              "(iteration, len, keys, items, l[k], get, index_for_key, l[i]) must agree with the model, and with the previous "
-              "model state when the operation raised. The space of the property (exhaustive up to 4 items) is sampled, with the "
+              "(iteration, len, keys and items IN LIST ORDER, l[k], get, index_for_key, l[i]) must agree with the model, and with the previous "
+              "model state when the operation raised; slices and concatenations are read as KeyedLists in their own right, through up to 1100 derived generations. The space of the property (exhaustive up to 4 items) is sampled, with the "
               "reached (universe, op, length, index class, outcome) cells reported."),
         note="Trusted: the reference list model in specsim/props/c13.py; membership is checked as item-or-key (pinned by the repo's tests).",
         technique="deterministic simulation: seeded operation histories vs executable reference model, key-function fault injection",
